@@ -90,6 +90,10 @@ def run(ctx, rep) -> None:
     rep.attempt("filter_agreement", filter_agreement, ctx, rep, "C08.1")
     rep.attempt("collective_uniformity", collective_uniformity, ctx, rep, "C08.3", {"HybridShardDistributor"})
     rep.attempt("buffer_protocol", buffer_protocol, ctx, rep, "C08.3", HYB)
+    from .common import utility_semantics
+
+    rep.rule("C08.6", "the pure utilities this property is built on compute what they document (concrete interpretation on small cases)")
+    rep.attempt("utility_semantics", utility_semantics, ctx, rep, "C08.6", ("get_dtype_size", "compress_list", "generate_pairwise_indices"))
     rep.rule("C08.5", "communication dtype table, allocation forwarding and mesh-dimension roles of the HybridShard distributor")
     rep.attempt("comm_dtype_table", comm_dtype_table, ctx, rep, "C08.5", HYB)
     rep.attempt("allocation_forwards_request", allocation_forwards_request, ctx, rep, "C08.5", HYB)
